@@ -208,6 +208,9 @@ class Interp(object):
         if isinstance(f, (classmethod, staticmethod)):
             return self.call_value(f.__func__, args, kwargs)
         s = getattr(f, '__self__', None)
+        if s is int and getattr(f, '__name__', '') == 'from_bytes':
+            from . import builtins_model as bm
+            return self.native(bm.int_from_bytes, [self] + list(args), kwargs, model_call=True)
         if isinstance(s, str) and (_deep_symbolic(list(args)) or _deep_symbolic(kwargs)):
             from . import builtins_model as bm
             name = getattr(f, '__name__', '')
